@@ -1,7 +1,7 @@
 (* C02, placement: the position make_search_move produces IS the successor the rules prescribe -- abs g' = Spec.apply (abs g) m --
    for every position satisfying the invariant and every generated move. *)
 From Coq Require Import NArith ZArith List Bool Lia.
-From JV Require Import Gen.Consts Spec.Rays Model.Bits Model.Chess Model.Abs Model.SearchChess Spec.ChessSpec Proofs.BitsProofs Proofs.BitboardProofs
+From JV Require Import Gen.Consts Spec.Rays Model.Bits Model.Chess Model.Abs Model.SearchChess Spec.ChessSpec Spec.SpecCore Proofs.BitsProofs Proofs.BitboardProofs
   Proofs.MoveGenProofs Proofs.MakeProofs Proofs.ZobristProofs Proofs.KeyProofs Proofs.GenProofs Proofs.ConsProofs Proofs.GenOk Proofs.KingsProofs
   Proofs.RangeProofs Proofs.NkProofs Proofs.LegalInv Proofs.CellProofs Proofs.AbsBase Proofs.AbsGeo Proofs.GenGeo.
 Import ListNotations.
@@ -428,6 +428,57 @@ Proof.
     rewrite N.mod_small by lia. lia.
   - (* full-move number *)
     rewrite stm_abs. fold w. cbn [fmn abs]. destruct w; cbn [colr]; [reflexivity|]. rewrite N.mod_small by lia. lia.
+Qed.
+(* the same without the clocks: no bound on them is needed *)
+Theorem make_abs_core : core (abs g') = core (apply (abs g) (umove m)).
+Proof.
+  destruct (make_scalars g m g' H) as (SW & SH & SF & SC & SE).
+  unfold core, apply. cbn zeta. rewrite is_pawn_eq, capture_eq.
+  unfold rights_after. cbn [board stm cK cQ ck cq epsq].
+  change (4, 0)%Z with (sq_of_idx 60). change (7, 0)%Z with (sq_of_idx 63). change (0, 0)%Z with (sq_of_idx 56).
+  change (4, 7)%Z with (sq_of_idx 4). change (7, 7)%Z with (sq_of_idx 7). change (0, 7)%Z with (sq_of_idx 0).
+  rewrite !(touch_eq 60 ltac:(lia)), !(touch_eq 63 ltac:(lia)), !(touch_eq 56 ltac:(lia)), !(touch_eq 4 ltac:(lia)), !(touch_eq 7 ltac:(lia)), !(touch_eq 0 ltac:(lia)).
+  rewrite <- board_eq.
+  change (stm (abs g')) with (if white g' then White else Black). change (cK (abs g')) with (N.testbit (castling g') 0).
+  change (cQ (abs g')) with (N.testbit (castling g') 1). change (ck (abs g')) with (N.testbit (castling g') 2). change (cq (abs g')) with (N.testbit (castling g') 3).
+  change (epsq (abs g')) with (if N.eqb (ep g') NOSQ then None else Some (sq_of_idx (ep g'))).
+  rewrite SW, SC, SE.
+  destruct (cr_spec f F64) as (F0 & F1 & F2 & F3). destruct (cr_spec t T64) as (T0 & T1 & T2 & T3).
+  f_equal.
+  - fold w. rewrite stm_abs. destruct w; reflexivity.
+  - rewrite !N.land_spec. fold f t. rewrite F0, T0. cbn [cK abs]. destruct (N.testbit (castling g) 0), (f =? 60), (f =? 63), (t =? 60), (t =? 63); reflexivity.
+  - rewrite !N.land_spec. fold f t. rewrite F1, T1. cbn [cQ abs]. destruct (N.testbit (castling g) 1), (f =? 60), (f =? 56), (t =? 60), (t =? 56); reflexivity.
+  - rewrite !N.land_spec. fold f t. rewrite F2, T2. cbn [ck abs]. destruct (N.testbit (castling g) 2), (f =? 4), (f =? 7), (t =? 4), (t =? 7); reflexivity.
+  - rewrite !N.land_spec. fold f t. rewrite F3, T3. cbn [cq abs]. destruct (N.testbit (castling g) 3), (f =? 4), (f =? 0), (t =? 4), (t =? 0); reflexivity.
+  - (* the new en-passant square *)
+    change (sfrom (umove m)) with (sq_of_idx f). change (sto (umove m)) with (sq_of_idx t).
+    change (snd (sq_of_idx t)) with (rowZ t). change (snd (sq_of_idx f)) with (rowZ f). change (fst (sq_of_idx f)) with (colZ f).
+    rewrite stm_abs. fold t w.
+    destruct (mdp m) eqn:DP.
+    + destruct (k_dp g m K DP) as (CAP & _ & PP & _ & REL). pose proof (g_dp g m RG DP) as DR. fold w t in DR, REL. fold p in PP. fold w in PP.
+      assert (PW : (p =? WP) || (p =? BP) = true) by (rewrite PP; destruct w; reflexivity). rewrite PW. cbn [andb].
+      pose proof F64 as FF. pose proof T64 as TT.
+      destruct w; fold f in REL.
+      * assert (NE : (t + 8 =? NOSQ) = false) by (apply N.eqb_neq; unfold NOSQ; lia). rewrite NE.
+        destruct (push_geo_spec t TT) as (_ & P16). rewrite REL in FF. destruct (P16 FF) as (C16 & R16).
+        destruct (push_geo_spec t TT) as (P8 & _). destruct (P8 ltac:(lia)) as (C8 & R8).
+        rewrite REL. rewrite R16. replace (Z.abs (rowZ t - (rowZ t - 2)))%Z with 2%Z by lia. cbn [Z.eqb Pos.eqb fwd colr].
+        rewrite (sq_eta (t + 8)), C16, C8, R8. f_equal. f_equal. lia.
+      * assert (NE : (t - 8 =? NOSQ) = false) by (apply N.eqb_neq; unfold NOSQ; lia). rewrite NE.
+        rewrite REL in TT |- *. replace (f + 16 - 8) with (f + 8) by lia.
+        destruct (push_geo_spec f FF) as (P8 & P16). destruct (P16 TT) as (C16 & R16). destruct (P8 ltac:(lia)) as (C8 & R8).
+        rewrite R16. replace (Z.abs (rowZ f - 2 - rowZ f))%Z with 2%Z by lia. cbn [Z.eqb Pos.eqb fwd colr].
+        rewrite (sq_eta (f + 8)), C8, R8. reflexivity.
+    + change (NOSQ =? NOSQ) with true. cbn iota.
+      destruct ((p =? WP) || (p =? BP)) eqn:PW; [|reflexivity]. cbn [andb].
+      assert (PP : mpiece m = WP \/ mpiece m = BP) by (apply orb_true_iff in PW; destruct PW as [X|X]; apply N.eqb_eq in X; fold p; auto).
+      assert (X : (Z.abs (rowZ t - rowZ f) =? 2)%Z = false); [|rewrite X; reflexivity].
+      apply Z.eqb_neq. pose proof F64 as FF. pose proof T64 as TT.
+      destruct (mcap m) eqn:CAP.
+      * pose proof (mg_pcap g m G PP CAP) as A. fold f t w in A. destruct (pawn_geo w f t FF TT A) as (_ & _ & _ & _ & AB). lia.
+      * destruct (mg_push g m G PP CAP) as [(_ & REL)|(Y & _)]; [|congruence]. fold w f t in REL. destruct w.
+        -- rewrite REL in FF |- *. destruct (proj1 (push_geo_spec t TT) FF) as (_ & R8). rewrite R8. lia.
+        -- rewrite REL in TT |- *. destruct (proj1 (push_geo_spec f FF) TT) as (_ & R8). rewrite R8. lia.
 Qed.
 End Refine.
 
